@@ -134,9 +134,9 @@ pred builtFrom(sv *Server, inst *serviceregistry.ServiceInstanceSpec) := sv != n
 func (sp *ServerPool) useService(instances map[string]*serviceregistry.ServiceInstanceSpec)
   flag allocates
   flag paths=split
-  flag frame=unchecked
   requires sp != nil && sp.spec != nil && noNil(sp.spec.Servers)
   requires forall n string :: (n in instances) ==> instances[n] != nil
+  modifies gLBList, gPosOf, gSrcOf, gTagOf, sp.loadBalancer.v, allof("filters/proxy.Server.addrIsHostName")
   ensures balancer-is-published-over-the-chosen-list: sp.loadBalancer.v != nil && balances(sp.loadBalancer.v, gLBList)
   ensures every-pool-member-is-a-tagged-instance: (exists n string :: (n in instances) && tagged(sp, instances[n])) ==> (forall k int :: 0 <= k && k < len(gLBList) ==> (exists n string :: (n in instances) && tagged(sp, instances[n]) && builtFrom(gLBList[k], instances[n])))
   ensures every-tagged-instance-is-a-pool-member: forall n string :: (n in instances) && tagged(sp, instances[n]) ==> (exists k int :: 0 <= k && k < len(gLBList) && builtFrom(gLBList[k], instances[n]))
@@ -145,13 +145,13 @@ func (sp *ServerPool) useService(instances map[string]*serviceregistry.ServiceIn
   ghost at call[1] URL: gPosOf := store(gPosOf, keys$1[idx$1], len(servers))
   ghost at call[1] URL: gSrcOf := store(gSrcOf, len(servers), keys$1[idx$1])
   ghost at call[1] URL: gTagOf := store(gTagOf, len(servers), idx$2)
-  invariant[1] shape: noNil(servers) && len(servers) <= idx$1 && sp.spec != nil && (forall k int :: 0 <= k && k < len(servers) ==> allocated(servers[k]))
+  invariant[1] shape: fresh(servers) && noNil(servers) && len(servers) <= idx$1 && sp.spec != nil && (forall k int :: 0 <= k && k < len(servers) ==> allocated(servers[k]))
   invariant[1] members-come-from-visited-instances: forall k int :: 0 <= k && k < len(servers) ==> dom$1[gSrcOf[k]] && pos$1[gSrcOf[k]] < idx$1
   invariant[1] members-in-visit-order: forall k1, k2 int :: 0 <= k1 && k1 < k2 && k2 < len(servers) ==> pos$1[gSrcOf[k1]] < pos$1[gSrcOf[k2]]
   invariant[1] members-are-tagged: forall k int :: 0 <= k && k < len(servers) ==> 0 <= gTagOf[k] && gTagOf[k] < len(sp.spec.ServerTags) && stringtool.inSlice(sp.spec.ServerTags[gTagOf[k]], instances[gSrcOf[k]].Tags)
   invariant[1] members-are-built-from-their-instance: forall k int :: 0 <= k && k < len(servers) ==> builtFrom(servers[k], instances[gSrcOf[k]])
   invariant[1] tagged-visited-instances-are-members: forall q int :: 0 <= q && q < idx$1 && tagged(sp, instances[keys$1[q]]) ==> 0 <= gPosOf[keys$1[q]] && gPosOf[keys$1[q]] < len(servers) && builtFrom(servers[gPosOf[keys$1[q]]], instances[keys$1[q]])
-  invariant[2] shape: noNil(servers) && (forall k int :: 0 <= k && k < len(servers) ==> allocated(servers[k])) && len(servers) <= idx$1 && sp.spec != nil && 0 <= idx$1 && idx$1 < len(keys$1) && instance == instances[keys$1[idx$1]] && instance != nil
+  invariant[2] shape: fresh(servers) && noNil(servers) && (forall k int :: 0 <= k && k < len(servers) ==> allocated(servers[k])) && len(servers) <= idx$1 && sp.spec != nil && 0 <= idx$1 && idx$1 < len(keys$1) && instance == instances[keys$1[idx$1]] && instance != nil
   invariant[2] no-earlier-tag-matches: forall t int :: 0 <= t && t < idx$2 ==> !stringtool.inSlice(sp.spec.ServerTags[t], instance.Tags)
   invariant[2] members-come-from-visited-instances: forall k int :: 0 <= k && k < len(servers) ==> dom$1[gSrcOf[k]] && pos$1[gSrcOf[k]] < idx$1
   invariant[2] members-in-visit-order: forall k1, k2 int :: 0 <= k1 && k1 < k2 && k2 < len(servers) ==> pos$1[gSrcOf[k1]] < pos$1[gSrcOf[k2]]
